@@ -41,12 +41,16 @@ SPEC = [
                       "enum_paragraphs"]),
     ("docx_text.py", ["flatten_text"]),
     ("bullets_and_numbering.py", ["_increment_list_counter"]),
+    ("docx_text.py", ["_get_elem_depth"]),
+    ("iterators.py", ["is_tbl", "is_tr", "is_tc"]),
 ]
 
 EXN = {"ValueError", "KeyError", "IndexError", "TypeError", "AttributeError", "StopIteration"}
 KNOWN_GLOBALS = {"ascii_lowercase": "ascii_lowercase"}
 BUILTINS = {"divmod": ("py_divmod", 2), "len": ("py_len", 1), "enumerate": ("py_enumerate", 1),
             "reversed": ("py_reversed", 1), "list": ("py_list", 1), "tuple": ("py_tuple", 1)}
+# calls on lxml elements, modelled as reads of the element object (VObj "Element"): trusted mapping
+EXTERNAL = {"get_prefixed_tag": "ptag"}
 METHODS = {("join", 1): "py_join", ("replace", 2): "py_replace", ("upper", 0): "py_upper",
            ("split", 0): "py_split_ws"}
 CMP = {ast.Lt: "py_lt", ast.Gt: "py_gt", ast.LtE: "py_le", ast.GtE: "py_ge", ast.Eq: "py_eq",
@@ -70,21 +74,60 @@ class Fn:
     def __init__(self, tr: "Translator", qual: str, node: ast.FunctionDef, is_method: bool):
         self.tr, self.qual, self.node = tr, qual, node
         self.tmp = 0
+        self.local_fns = {}      # nested function name -> {"qual", "params", "defaults", "fuel"}
         self.params = [a.arg for a in node.args.args]
         if node.args.vararg or node.args.kwarg or node.args.kwonlyargs or node.args.posonlyargs:
             die(node, "only plain positional parameters are translated")
-        self.is_gen = any(isinstance(n, (ast.Yield, ast.YieldFrom)) for n in ast.walk(node))
+        def own(n0):
+            """nodes of this function, not those of functions nested in it"""
+            stack = list(ast.iter_child_nodes(n0))
+            while stack:
+                n = stack.pop()
+                yield n
+                if not isinstance(n, ast.FunctionDef):
+                    stack.extend(ast.iter_child_nodes(n))
+        own_nodes = list(own(node))
+        self.is_gen = any(isinstance(n, (ast.Yield, ast.YieldFrom)) for n in own_nodes)
         self.recursive = any(isinstance(n, ast.Call) and isinstance(n.func, ast.Name)
-                             and n.func.id == node.name for n in ast.walk(node)) and not is_method
-        self.has_while = any(isinstance(n, ast.While) for n in ast.walk(node))
-        self.mutated_params = [p for p in self.params if p in self.mutation_roots(node.body)]
-        callees = {n.func.id for n in ast.walk(node) if isinstance(n, ast.Call)
+                             and n.func.id == node.name for n in own_nodes) and not is_method
+        self.has_while = any(isinstance(n, ast.While) for n in own_nodes)
+        self.mutated_params = [p for p in self.params if p in self.mutation_roots(
+            [st for st in node.body if not isinstance(st, ast.FunctionDef)])]
+        callees = {n.func.id for n in own_nodes if isinstance(n, ast.Call)
                    and isinstance(n.func, ast.Name)}
-        attrs = {n.attr for n in ast.walk(node) if isinstance(n, ast.Attribute)}
+        attrs = {n.attr for n in own_nodes if isinstance(n, ast.Attribute)}
         self.calls_fuelled = any(tr.fuelled.get(c) for c in callees if c != node.name) or \
             any(tr.fuelled.get(tr.properties[a]) for a in attrs if a in tr.properties) or \
             (any(c == "str" for c in callees) and tr.str_dispatch_fuelled)
-        self.needs_fuel = self.recursive or self.has_while or self.calls_fuelled
+        # functions defined inside this one: translated first, lifted to the top level; they must
+        # not read the enclosing function's locals (checked), so lifting is sound
+        self.inner_text = []
+        for st in node.body:
+            if isinstance(st, ast.FunctionDef):
+                if st.decorator_list:
+                    die(st, "decorated nested function")
+                inner = Fn(tr, f"{qual}.{st.name}", st, False)
+                bound = set(inner.params) | set(inner.assigned([x for x in st.body]))
+                for n in own(st):
+                    if isinstance(n, ast.Name) and isinstance(n.ctx, ast.Load) and n.id not in bound \
+                            and (n.id in self.params or n.id in self.assigned(
+                                [x for x in node.body if not isinstance(x, ast.FunctionDef)])) \
+                            and n.id != st.name:
+                        die(n, f"nested function {st.name} reads {n.id} of the enclosing function")
+                dfl = []
+                for d in st.args.defaults:
+                    if isinstance(d, ast.Constant) and isinstance(d.value, int) and not isinstance(d.value, bool):
+                        dfl.append(f"(VInt ({d.value})%Z)")
+                    elif isinstance(d, ast.Constant) and d.value is None:
+                        dfl.append("VNone")
+                    else:
+                        die(d, "default of a nested function: an int constant or None")
+                info = {"qual": inner.qual, "params": inner.params, "defaults": dfl, "fuel": inner.needs_fuel}
+                inner.local_fns[st.name] = info
+                self.local_fns[st.name] = info
+                self.inner_text.append(inner.emit())
+        self.needs_fuel = self.recursive or self.has_while or self.calls_fuelled or \
+            any(i["fuel"] for i in self.local_fns.values())
 
     # ----- helpers
     def fresh(self) -> str:
@@ -181,7 +224,9 @@ class Fn:
                     if st.orelse:
                         die(st, "loop else clauses are not translated")
                     walk(st.body)
-                elif isinstance(st, (ast.Return, ast.Raise, ast.Pass)):
+                elif isinstance(st, ast.With):
+                    walk(st.body)
+                elif isinstance(st, (ast.Return, ast.Raise, ast.Pass, ast.FunctionDef)):
                     pass
                 else:
                     die(st, f"unsupported statement {type(st).__name__}")
@@ -255,6 +300,18 @@ class Fn:
                         L.append(self.bindline(mode, t2, f"py_not {t}"))
                         return t2
                     return t
+                if isinstance(op, (ast.In, ast.NotIn)) and isinstance(rhs, ast.Set):
+                    a = go(e.left)
+                    cs = [go(x) for x in rhs.elts]
+                    if any(not c.startswith("(V") for c in cs):
+                        die(e, "`in` is translated against a set display of constants only")
+                    t = self.fresh()
+                    L.append(self.bindline(mode, t, f"py_in_consts {a} [{'; '.join(cs)}]"))
+                    if isinstance(op, ast.NotIn):
+                        t2 = self.fresh()
+                        L.append(self.bindline(mode, t2, f"py_not {t}"))
+                        return t2
+                    return t
                 if type(op) not in CMP:
                     die(e, "unsupported comparison")
                 a, b = go(e.left), go(rhs)
@@ -268,6 +325,11 @@ class Fn:
                 t = self.fresh()
                 L.append(self.bindline(mode, t, f"py_index {a} {i}"))
                 return t
+            if isinstance(e, ast.Attribute) and isinstance(e.value, ast.Name) and e.value.id == "Tags" \
+                    and "Tags" not in env:
+                if e.attr not in self.tr.tags:
+                    die(e, f"Tags.{e.attr} is not a member of attribute_register.Tags")
+                return f"(VStr {coq_str(self.tr.tags[e.attr])})"
             if isinstance(e, ast.Attribute):
                 a = go(e.value)
                 t = self.fresh()
@@ -327,8 +389,38 @@ class Fn:
                     if len(e.args) != 2:
                         die(e, "cast takes two arguments")
                     return go(e.args[1])
+                if f.id == "any" and len(e.args) == 1 and isinstance(e.args[0], ast.GeneratorExp) \
+                        and len(e.args[0].generators) == 1 and not e.args[0].generators[0].ifs:
+                    g = e.args[0].generators[0]
+                    it = go(g.iter)
+                    x = self.fresh()
+                    env2 = set(env)
+                    unpack = self.unpack_target(g.target, x, env2, "r")
+                    Lb, b = self.ex(e.args[0].elt, env2, "r")
+                    t = self.fresh()
+                    L.append(self.bindline(mode, t, f"py_any {it} (fun {x} => {' '.join(unpack)} {' '.join(Lb)} Ok {b})"))
+                    return t
                 args = [go(a) for a in e.args]
                 t = self.fresh()
+                if f.id in EXTERNAL and len(args) == 1:
+                    L.append(self.bindline(mode, t, f"py_attr {args[0]} {coq_str(EXTERNAL[f.id])}"))
+                    return t
+                if f.id == "max" and len(args) == 2:
+                    L.append(self.bindline(mode, t, f"py_max2 {args[0]} {args[1]}"))
+                    return t
+                if f.id == "next" and len(args) == 1:
+                    L.append(self.bindline(mode, t, f"py_next {args[0]}"))
+                    return t
+                if f.id in self.local_fns:
+                    inner = self.local_fns[f.id]
+                    dflt = inner["defaults"]
+                    npar = len(inner["params"])
+                    if len(args) < npar - len(dflt) or len(args) > npar:
+                        die(e, f"wrong number of arguments for {f.id}")
+                    args = args + dflt[len(dflt) - (npar - len(args)):] if len(args) < npar else args
+                    fuel = ("fuel' " if self.qual == inner["qual"] else "fuel ") if inner["fuel"] else ""
+                    L.append(self.bindline(mode, t, f"{mangle(inner['qual'])} {fuel}{' '.join(args)}"))
+                    return t
                 if f.id == "str" and len(args) == 1:
                     L.append(self.bindline(mode, t, f"{self.tr.str_fn(self)} {args[0]}"))
                 elif f.id in BUILTINS and BUILTINS[f.id][1] == len(args):
@@ -544,6 +636,23 @@ class Fn:
             return "\n".join([pad + l for l in L + pre] +
                              [pad + f"{self.lam_pat(av)} <~~ (if py_truth {c} then (", thn, pad + ") else (", els,
                               pad + ")) ;;;", cont()])
+        if isinstance(st, ast.With):
+            if len(st.items) != 1 or st.items[0].optional_vars is not None:
+                die(st, "with: only `with suppress(E):`")
+            ce = st.items[0].context_expr
+            if not (isinstance(ce, ast.Call) and isinstance(ce.func, ast.Name) and ce.func.id == "suppress"
+                    and len(ce.args) == 1 and isinstance(ce.args[0], ast.Name) and ce.args[0].id in EXN):
+                die(st, "with: only `with suppress(<one known exception>):`")
+            av = self.assigned(st.body)
+            used_after = {n.id for r_ in rest for n in ast.walk(r_) if isinstance(n, ast.Name)}
+            if any(x in used_after for x in av if x not in env):
+                die(st, "a name first bound inside `with suppress` is read after the block")
+            if any(x in env for x in av) or "acc_" in av:
+                die(st, "`with suppress` bodies may only bind fresh names")
+            body = self.block(st.body, env, "Nx tt", ind + 1)
+            return "\n".join([pad + f"'tt <~~ py_suppress {ce.args[0].id} (", body, pad + ") tt ;;;", cont()])
+        if isinstance(st, ast.FunctionDef):
+            return cont()          # nested function: lifted to the top level by emit()
         if isinstance(st, ast.While):
             av = self.assigned(st.body)
             pre = [f"let {self.pat([x])} := VNone in" for x in av if x not in env and x != "acc_"]
@@ -586,6 +695,7 @@ class Fn:
                                    " [returns (result, %s): the mutated parameter(s) are handed back]" %
                                    ", ".join(self.mutated_params) if self.mutated_params else "")
         acc = "    let acc_ := VList [] in\n" if self.is_gen else ""
+        head = "".join(t + "\n" for t in self.inner_text) + head
         if self.recursive:
             return (head + f"Fixpoint {name} (fuel : nat) {params} {{struct fuel}} : res pv :=\n"
                     f"  match fuel with\n  | O => Err ModelError\n  | S fuel' =>\n    fn_result (S:=unit) (\n{acc}{body}\n    )\n  end.\n")
@@ -601,8 +711,26 @@ class Translator:
         self.constants = set()
         self.properties = {}      # attribute name -> qualified name of the property
         self.str_classes = []     # classes with a translated __str__
+        self.tags = self.read_tags()
         self.str_dispatch_fuelled = False
         self.out = []
+
+    def read_tags(self) -> dict:
+        p = self.repo / "docx2python" / "attribute_register.py"
+        try:
+            tree = ast.parse(p.read_text(encoding="utf-8"), filename=str(p))
+        except (OSError, SyntaxError) as ex:
+            raise Reject(f"cannot parse {p}: {ex}")
+        out = {}
+        for n in tree.body:
+            if isinstance(n, ast.ClassDef) and n.name == "Tags":
+                for st in n.body:
+                    if isinstance(st, ast.Assign) and len(st.targets) == 1 and isinstance(st.targets[0], ast.Name) \
+                            and isinstance(st.value, ast.Constant) and isinstance(st.value.value, str):
+                        out[st.targets[0].id] = st.value.value
+        if not out:
+            raise Reject("attribute_register.Tags not found")
+        return out
 
     def str_fn(self, fn: Fn) -> str:
         if self.str_classes:
